@@ -14,6 +14,7 @@ import (
 type sharedTab struct {
 	pkgVarWrites   [][3]string // package, variable, function that assigns to it (outside its declaration)
 	writerWrites   [][2]string // field of singleWarcFileWriter, method that assigns it
+	writerReads    [][2]string // field of singleWarcFileWriter, method (or its unlocked part "m!") that reads it
 	lockHolders    []string    // methods of singleWarcFileWriter that take writeLock
 	innerCalls     [][2]string // caller method -> callee method, both of singleWarcFileWriter
 	outerCalls     [][2]string // function outside the type -> method of singleWarcFileWriter it calls
@@ -21,6 +22,7 @@ type sharedTab struct {
 	genWrites      [][2]string // field of PatternNameGenerator, method that assigns it non-atomically
 	wfwWrites      [][2]string // field of WarcFileWriter, function that assigns it (other than the constructor)
 	poolPuts       [][3]string // function, pool, "niled"/"kept": is the reference dropped right after Put
+	splitMethods   []string    // lock holders with statements outside the locked region: "m!" is entered whenever "m" is
 }
 
 var unsafeExternals = map[string]bool{"uuid.EnableRandPool": true, "uuid.DisableRandPool": true, "uuid.SetRand": true, "uuid.SetNodeID": true,
@@ -132,6 +134,32 @@ func collectShared(pkgName string, p *pkgInfo, t *sharedTab) {
 		fnames = append(fnames, n)
 	}
 	sort.Strings(fnames)
+	// the methods and the fields of the per-file writer: every call among the methods and every access to a field counts,
+	// whatever the names are
+	swMethods := map[string]bool{}
+	swFields := map[string]bool{}
+	for _, fname := range fnames {
+		for _, d := range p.files[fname].Decls {
+			switch v := d.(type) {
+			case *ast.FuncDecl:
+				if _, rt := recvOf(v); rt == "singleWarcFileWriter" {
+					swMethods[v.Name.Name] = true
+				}
+			case *ast.GenDecl:
+				for _, sp := range v.Specs {
+					if ts, ok := sp.(*ast.TypeSpec); ok && ts.Name.Name == "singleWarcFileWriter" {
+						if st, ok := ts.Type.(*ast.StructType); ok {
+							for _, f := range st.Fields.List {
+								for _, n := range f.Names {
+									swFields[n.Name] = true
+								}
+							}
+						}
+					}
+				}
+			}
+		}
+	}
 	for _, fname := range fnames {
 		for _, d := range p.files[fname].Decls {
 			fd, ok := d.(*ast.FuncDecl)
@@ -144,6 +172,81 @@ func collectShared(pkgName string, p *pkgInfo, t *sharedTab) {
 				fn = rtype + "." + fd.Name.Name
 			}
 			locals := localNames(fd)
+			// which part of a method of the per-file writer runs under writeLock: canonical form is Lock() directly followed
+			// by defer Unlock(); with an explicit Unlock() the statements before Lock() and after Unlock() form the
+			// unlocked part of the method, reported under the name "<method>!"
+			unlockedPart := map[ast.Node]bool{}
+			hasUnlockedPart := false
+			if rtype == "singleWarcFileWriter" {
+				isLockCall := func(st ast.Stmt, name string, deferred bool) bool {
+					var call *ast.CallExpr
+					switch v := st.(type) {
+					case *ast.ExprStmt:
+						if deferred {
+							return false
+						}
+						call, _ = v.X.(*ast.CallExpr)
+					case *ast.DeferStmt:
+						if !deferred {
+							return false
+						}
+						call = v.Call
+					}
+					if call == nil {
+						return false
+					}
+					sel, ok := call.Fun.(*ast.SelectorExpr)
+					return ok && sel.Sel.Name == name && strings.HasSuffix(p.src(sel.X), "writeLock")
+				}
+				takesLock := false
+				ast.Inspect(fd.Body, func(n ast.Node) bool {
+					if c, ok := n.(*ast.CallExpr); ok {
+						if sel, ok := c.Fun.(*ast.SelectorExpr); ok && sel.Sel.Name == "Lock" && strings.HasSuffix(p.src(sel.X), "writeLock") {
+							takesLock = true
+						}
+					}
+					return true
+				})
+				if takesLock {
+					held, forGood := false, false
+					for _, st := range fd.Body.List {
+						switch {
+						case isLockCall(st, "Lock", false):
+							held = true
+						case isLockCall(st, "Unlock", true):
+							if held {
+								forGood = true
+							}
+						case isLockCall(st, "Unlock", false):
+							if !forGood {
+								held = false
+							}
+						default:
+							if !held {
+								unlockedPart[st] = true
+								hasUnlockedPart = true
+							}
+						}
+					}
+					if !held && !forGood && !hasUnlockedPart {
+						// Lock() somewhere in a nested block only: nothing is known to be covered
+						for _, st := range fd.Body.List {
+							unlockedPart[st] = true
+						}
+						hasUnlockedPart = true
+					}
+				}
+			}
+			// the name under which an access or a call at node n is reported
+			var curStmt ast.Stmt
+			here := func() string {
+				if curStmt != nil && unlockedPart[curStmt] {
+					return fd.Name.Name + "!"
+				}
+				return fd.Name.Name
+			}
+			_ = hasUnlockedPart
+			lhsNodes := map[ast.Node]bool{}
 			written := func(lhs ast.Expr) {
 				id := rootIdent(lhs)
 				if id == nil {
@@ -156,7 +259,8 @@ func collectShared(pkgName string, p *pkgInfo, t *sharedTab) {
 					if x, ok := sel.X.(*ast.Ident); ok && x.Name == rname {
 						switch rtype {
 						case "singleWarcFileWriter":
-							t.writerWrites = append(t.writerWrites, [2]string{sel.Sel.Name, fd.Name.Name})
+							t.writerWrites = append(t.writerWrites, [2]string{sel.Sel.Name, here()})
+							lhsNodes[sel] = true
 						case "PatternNameGenerator":
 							t.genWrites = append(t.genWrites, [2]string{sel.Sel.Name, fd.Name.Name})
 						case "WarcFileWriter":
@@ -190,8 +294,22 @@ func collectShared(pkgName string, p *pkgInfo, t *sharedTab) {
 					}
 				}
 			}
+			topLevel := map[ast.Node]bool{}
+			for _, st := range fd.Body.List {
+				topLevel[st] = true
+			}
 			ast.Inspect(fd.Body, func(n ast.Node) bool {
+				if st, ok := n.(ast.Stmt); ok && topLevel[st] {
+					curStmt = st
+				}
 				switch v := n.(type) {
+				case *ast.SelectorExpr:
+					// a field of the per-file writer that is read (the assigned ones were noted when their statement was visited)
+					if rtype == "singleWarcFileWriter" && rname != "" && swFields[v.Sel.Name] && !lhsNodes[v] {
+						if x, ok := v.X.(*ast.Ident); ok && x.Name == rname {
+							t.writerReads = append(t.writerReads, [2]string{v.Sel.Name, here()})
+						}
+					}
 				case *ast.BlockStmt:
 					walkBlock(v.List)
 				case *ast.AssignStmt:
@@ -211,27 +329,27 @@ func collectShared(pkgName string, p *pkgInfo, t *sharedTab) {
 							}
 							// calls on / into singleWarcFileWriter
 							if rtype == "singleWarcFileWriter" && x.Name == rname {
-								switch sel.Sel.Name {
-								case "Write", "write", "Close", "close", "createFile", "writeRecord", "createWarcInfoRecord":
-									t.innerCalls = append(t.innerCalls, [2]string{fd.Name.Name, sel.Sel.Name})
+								if swMethods[sel.Sel.Name] {
+									t.innerCalls = append(t.innerCalls, [2]string{here(), sel.Sel.Name})
 								}
-							} else if rtype != "singleWarcFileWriter" {
-								switch sel.Sel.Name {
-								case "write", "close", "createFile", "writeRecord", "createWarcInfoRecord":
-									// unexported names that only singleWarcFileWriter has: any receiver expression counts
-									if pkgName == "gowarc" && x.Name != rname {
-										t.outerCalls = append(t.outerCalls, [2]string{fn, sel.Sel.Name})
-									}
-								case "Write", "Close":
+							} else if rtype != "singleWarcFileWriter" && pkgName == "gowarc" && swMethods[sel.Sel.Name] {
+								if ast.IsExported(sel.Sel.Name) {
+									// exported names are shared with other types: only receivers known to be per-file writers count
 									if x.Name == "writer" || (fd.Name.Name == "worker" && x.Name == "w") {
 										t.outerCalls = append(t.outerCalls, [2]string{fn, sel.Sel.Name})
 									}
+								} else if x.Name != rname {
+									// unexported names that only singleWarcFileWriter has: any receiver expression counts
+									t.outerCalls = append(t.outerCalls, [2]string{fn, sel.Sel.Name})
 								}
 							}
 						}
 						// lock holders
 						if rtype == "singleWarcFileWriter" && sel.Sel.Name == "Lock" && strings.HasSuffix(p.src(sel.X), "writeLock") {
 							t.lockHolders = append(t.lockHolders, fd.Name.Name)
+							if hasUnlockedPart {
+								t.splitMethods = append(t.splitMethods, fd.Name.Name)
+							}
 						}
 					}
 				}
@@ -281,12 +399,39 @@ func genSharedAccess(p, db *pkgInfo) string {
 			lh = append(lh, leanStr(x))
 		}
 	}
+	// whoever enters a method with an unlocked part enters that part as well
+	for _, m := range t.splitMethods {
+		for _, c := range append([][2]string{}, t.outerCalls...) {
+			if c[1] == m {
+				t.outerCalls = append(t.outerCalls, [2]string{c[0], m + "!"})
+			}
+		}
+		for _, c := range append([][2]string{}, t.innerCalls...) {
+			if c[1] == m {
+				t.innerCalls = append(t.innerCalls, [2]string{c[0], m + "!"})
+			}
+		}
+	}
+	// only accesses to fields that some method assigns can race
+	mutable := map[string]bool{}
+	for _, w := range t.writerWrites {
+		mutable[w[0]] = true
+	}
+	var reads [][2]string
+	for _, r := range t.writerReads {
+		if mutable[r[0]] {
+			reads = append(reads, r)
+		}
+	}
+	t.writerReads = reads
 	var sb strings.Builder
 	sb.WriteString("-- GENERATED by /verif/go/extract from /repo: do not edit\nnamespace Gowarc.Gen\n\n")
 	sb.WriteString("/-- (package, variable, function) : assignments to package-level variables outside their declaration -/\n")
 	fmt.Fprintf(&sb, "def pkgVarWrites : List (String × String × String) := %s\n\n", leanTriples(t.pkgVarWrites))
 	sb.WriteString("/-- (field, method) : assignments to fields of singleWarcFileWriter -/\n")
 	fmt.Fprintf(&sb, "def writerFieldWrites : List (String × String) := %s\n\n", leanPairs(uniq2(t.writerWrites)))
+	sb.WriteString("/-- (field, method) : reads of fields of singleWarcFileWriter that some method assigns; `m!` is the part of m outside its locked region -/\n")
+	fmt.Fprintf(&sb, "def writerFieldReads : List (String × String) := %s\n\n", leanPairs(uniq2(t.writerReads)))
 	fmt.Fprintf(&sb, "/-- methods of singleWarcFileWriter that take writeLock -/\ndef lockHolders : List String := [%s]\n\n", strings.Join(lh, ", "))
 	fmt.Fprintf(&sb, "/-- (caller, callee) among the methods of singleWarcFileWriter -/\ndef innerCalls : List (String × String) := %s\n\n", leanPairs(uniq2(t.innerCalls)))
 	fmt.Fprintf(&sb, "/-- (function outside the type, method of singleWarcFileWriter it calls) -/\ndef outerCalls : List (String × String) := %s\n\n", leanPairs(uniq2(t.outerCalls)))
